@@ -712,12 +712,18 @@ def call_history(ctx):
     script = os.path.join(wd, "hist.py")
     with open(script, "w") as f:
         f.write(HISTORY_SCRIPT)
-    env = dict(os.environ, LANG="C.UTF-8", LC_ALL="C.UTF-8", PYTHONUTF8="0", PYTHONCOERCECLOCALE="0")
-    p = subprocess.run([sys.executable, script, core.REPO, wd], env=env, capture_output=True, text=True, timeout=300)
-    try:
-        return json.loads(p.stdout.strip().splitlines()[-1])
-    except (ValueError, IndexError):
-        return ["history helper failed: rc %s %s" % (p.returncode, (p.stderr or p.stdout)[-300:])]
+    out = []
+    # a UTF-8 locale; and the C locale with Python's UTF-8 mode on (text-mode streams are UTF-8 there although the
+    # locale's own codeset is ASCII): the capture is decoded like any text-mode stream of the process
+    for label, extra in (("UTF-8 locale", {"LANG": "C.UTF-8", "LC_ALL": "C.UTF-8", "PYTHONUTF8": "0", "PYTHONCOERCECLOCALE": "0"}),
+                         ("C locale, UTF-8 mode", {"LANG": "C", "LC_ALL": "C", "PYTHONUTF8": "1"})):
+        p = subprocess.run([sys.executable, script, core.REPO, wd], env=dict(os.environ, **extra), capture_output=True, text=True,
+                           timeout=300)
+        try:
+            out += ["[%s] %s" % (label, x) for x in json.loads(p.stdout.strip().splitlines()[-1])]
+        except (ValueError, IndexError):
+            out.append("[%s] history helper failed: rc %s %s" % (label, p.returncode, (p.stderr or p.stdout)[-300:]))
+    return out
 
 
 def run(ctx):
